@@ -912,14 +912,18 @@ class Program:
                         for fld, val in list(ast.iter_fields(par)):
                             items = val if isinstance(val, list) else [val]
                             for k, c in enumerate(items):
-                                if not (isinstance(c, (ast.ListComp, ast.DictComp)) and len(c.generators) == 1 and
+                                is_arg_gen = isinstance(c, ast.GeneratorExp) and isinstance(par, ast.Call) and isinstance(val, list) \
+                                    and val is par.args and len(par.args) == 1 and (
+                                        (isinstance(par.func, ast.Attribute) and par.func.attr == 'join') or
+                                        (isinstance(par.func, ast.Name) and par.func.id in ('list', 'tuple', 'sorted', 'sum', 'set')))
+                                if not ((isinstance(c, (ast.ListComp, ast.DictComp)) or is_arg_gen) and len(c.generators) == 1 and
                                         not c.generators[0].ifs and not c.generators[0].is_async):
                                     continue
                                 elems = literal_elems(fnode, c.generators[0].iter, mod)
                                 bs = bindings(c.generators[0].target, elems) if elems is not None else None
                                 if bs is None:
                                     continue
-                                if isinstance(c, ast.ListComp):
+                                if isinstance(c, (ast.ListComp, ast.GeneratorExp)):
                                     new = ast.List(elts=[subst(c.elt, b) for b in bs], ctx=ast.Load())
                                 else:
                                     new = ast.Dict(keys=[subst(c.key, b) for b in bs], values=[subst(c.value, b) for b in bs])
